@@ -409,6 +409,24 @@ pub fn borrowed_faults(ops: &dyn SeqOps, cx: &mut Cx, i: usize, want: &Val, srcs
 pub fn c18_wrappers(ops: &dyn SeqOps, cx: &mut Cx) {
     let n = ops.build(cx.tier.pick(30, 200));
     let srcs: Vec<Src> = if ops.has_iter() { vec![Src::Vec, Src::Slice, Src::Iter] } else { vec![Src::Vec, Src::Slice] };
+    // a schema of more than 2^16 rows (a long sequence of deep-copy items, or an iterator of
+    // many zero-copy items): still the whole forest
+    if n > 0 {
+        let li = ops.add_repeated(n - 1, 24_000);
+        for src in &srcs {
+            if let Out::Ok((bytes, rows)) = ops.ser_schema(li, *src) {
+                if rows.len() > (1 << 16) {
+                    cx.evals += 1;
+                    cx.transitions += rows.len() as u64;
+                    cx.count("schemas_of_more_than_65536_rows", 1);
+                    let bad = vcore::checks2::schema_forest(&rows, &bytes, 0);
+                    cx.outcome(if bad.is_empty() { "large-schema-ok" } else { "large-schema-bad" });
+                    // (the per-item rows of SerIter over items whose size is not a multiple of their unit are F17)
+                    for (c, d) in bad.into_iter().filter(|(c, _)| c != "block-not-at-multiple-of-recorded-align").take(4) { cx.violate(&format!("large-schema-{}", c), json!({"source": format!("{:?}", src), "rows": rows.len(), "observed": d})); }
+                }
+            }
+        }
+    }
     for i in 0..n {
         let want = ops.val(i);
         cx.case(vcore::cx::hash64(&[cx.type_id.as_bytes(), format!("{:?}", want).as_bytes()]), true);
